@@ -25,7 +25,8 @@ FUNCTIONS = {
     'C08': [('filter_c08', 'filter.build_filtering_func'), ('find_c14', 'find.find_suites'),
             ('select_c03', 'filter.Filter.global_setup'), ('select_c03', 'find.find_tests')],
     'C12': [(RR, TR + 'startTest'), (RR, TR + 'addSkip'), PROTOCOL, RUN_TESTS, RUNNER_LOOP,
-            ('process_c07', 'process.SubProcess.report')],
+            ('process_c07', 'process.SubProcess.report'), ('report_c12', 'statistics.Statistics.report'),
+            ('report_c12', 'filter.Filter.report')],
     'C13': [(RR, TR + '__init__'), (RR, TR + '_setUpStdStreams'), (RR, TR + '_restoreStdStreams'),
             (RR, TR + 'startTest'), (RR, TR + 'stopTest')] + EVENTS + [PROTOCOL, RUN_TESTS],
     'C16': [(RR, TR + m) for m in ('addError', 'addFailure', 'addUnexpectedSuccess', 'addSubTest')]
@@ -36,7 +37,8 @@ FUNCTIONS = {
         'garbagecollection.Threshold.global_setup', 'garbagecollection.Threshold.global_teardown',
         'garbagecollection.Debug.global_setup', 'garbagecollection.Debug.global_teardown',
         'tb_format.Traceback.global_setup', 'tb_format.Traceback.global_teardown',
-        'coverage.TestTrace.start', 'coverage.TestTrace.stop', 'runner.Runner.run')]
+        'coverage.TestTrace.__init__', 'coverage.TestTrace.start', 'coverage.TestTrace.stop',
+        'coverage.Coverage.global_setup', 'coverage.Coverage.early_teardown', 'runner.Runner.run')]
            + [(RR, TR + '_setUpStdStreams'), (RR, TR + '_restoreStdStreams'), (RR, TR + 'startTest'), (RR, TR + 'stopTest')]
            + EVENTS + [PROTOCOL, RUN_TESTS],      # sys.stdout / sys.stderr: everything the restoration argument uses
     'C09': [('find_c09', 'find.tests_from_suite'), ('find_c15', 'options.get_options'),
